@@ -1179,3 +1179,131 @@ async fn run_c07_raw_async(plan: C07RawPlan, sched: Sched, record: bool) -> Outc
     o.nontrivial = dec.iter().any(|d| d.2);
     o
 }
+
+// =================================================================== C05 against a third-party peer
+
+/// A conforming peer that is not this implementation: it may send zero-length Push frames
+/// (PROTOCOL.md does not forbid them; penguin itself no longer sends them).
+#[derive(Serialize, Deserialize, Clone, Debug)]
+pub struct C05RawPlan {
+    pub ep: EpCfg,
+    pub link: LinkCfg,
+    pub weights: [u32; NCLS],
+    /// payload sizes of the Push frames the peer sends on its stream (0 = empty Push)
+    pub pushes: Vec<usize>,
+    /// yields between frames
+    pub gaps: usize,
+    /// 0 = Finish afterwards, 1 = Reset afterwards, 2 = nothing (stream stays open)
+    pub end: u8,
+    /// read buffer of the application
+    pub buf: usize,
+    /// use fill_buf/consume instead of read
+    pub fill: bool,
+}
+pub fn run_c05_raw(plan: &C05RawPlan, sched: &Sched, record: bool) -> Outcome {
+    block_on(run_c05_raw_async(plan.clone(), sched.clone(), record))
+}
+async fn run_c05_raw_async(plan: C05RawPlan, sched: Sched, record: bool) -> Outcome {
+    use tokio::io::{AsyncBufReadExt, AsyncReadExt};
+    let mut s = setup(&plan.ep, plan.ep.options(), &plan.link, plan.weights, &sched, record, RxPolicy { ack_pushes: false, ack_req_connects: None }, Rc::new(RefCell::new(vec![])));
+    const ID: u32 = 0x0c05_0001;
+    // (bytes read, eof seen at seq, error)
+    let got: Rc<RefCell<(Vec<u8>, Option<u64>, Option<String>)>> = Default::default();
+    let held: Rc<RefCell<Vec<penguin_mux::MuxStream>>> = Default::default();
+    {
+        let (m, got, held, seq, plan2) = (s.mux.clone(), got.clone(), held.clone(), s.seq.clone(), plan.clone());
+        s.sim.spawn("app", CLS_READER, async move {
+            let Ok(mut st) = m.accept_stream_channel().await else { return };
+            let mut b = vec![0u8; plan2.buf.max(1)];
+            loop {
+                let n = if plan2.fill {
+                    match st.fill_buf().await {
+                        Ok(x) => {
+                            let k = x.len().min(plan2.buf.max(1));
+                            got.borrow_mut().0.extend(&x[..k]);
+                            st.consume(k);
+                            k
+                        }
+                        Err(e) => {
+                            got.borrow_mut().2 = Some(e.to_string());
+                            break;
+                        }
+                    }
+                } else {
+                    match st.read(&mut b).await {
+                        Ok(k) => {
+                            got.borrow_mut().0.extend(&b[..k]);
+                            k
+                        }
+                        Err(e) => {
+                            got.borrow_mut().2 = Some(e.to_string());
+                            break;
+                        }
+                    }
+                };
+                if n == 0 {
+                    got.borrow_mut().1 = Some(seq.tick());
+                    break;
+                }
+            }
+            held.borrow_mut().push(st);
+        });
+    }
+    let sent: Rc<RefCell<Vec<u8>>> = Default::default();
+    let end_seq: Rc<RefCell<Option<u64>>> = Default::default();
+    {
+        let (raw, plan2, sent, end_seq, seq) = (s.raw.clone(), plan.clone(), sent.clone(), end_seq.clone(), s.seq.clone());
+        s.sim.spawn("peer-tx", CLS_OTHER, async move {
+            raw.borrow_mut().send(RFrame::Connect { id: ID, rwnd: 1000, port: 5, host: b"third-party".to_vec() });
+            let mut off = 0u64;
+            for n in &plan2.pushes {
+                sim_yields(plan2.gaps).await;
+                let data: Vec<u8> = (0..*n as u64).map(|j| pbyte(77, 0, off + j)).collect();
+                off += *n as u64;
+                sent.borrow_mut().extend(&data);
+                raw.borrow_mut().send(RFrame::Push { id: ID, data });
+            }
+            sim_yields(plan2.gaps).await;
+            match plan2.end {
+                0 => {
+                    *end_seq.borrow_mut() = Some(seq.tick());
+                    raw.borrow_mut().send(RFrame::Finish { id: ID });
+                }
+                1 => {
+                    *end_seq.borrow_mut() = Some(seq.tick());
+                    raw.borrow_mut().send(RFrame::Reset { id: ID });
+                }
+                _ => {}
+            }
+        });
+    }
+    let end = s.sim.run(1_000_000, crate::duo::HORIZON).await;
+    let mut o = Outcome { digest: s.sim.digest.0 ^ s.seq.now(), steps: s.sim.steps, decisions: s.sim.decisions.take().unwrap_or_default(), ..Default::default() };
+    if end != End::Quiescent {
+        o.violate("HARNESS:step-budget", "no quiescence".into());
+        return o;
+    }
+    let g = got.borrow();
+    let sent = sent.borrow();
+    let desc = format!("peer sent Push sizes {:?} then {} (rwnd of the endpoint {}); the application read {} of {} bytes, end-of-stream: {:?}, error: {:?}, task: {:?}", plan.pushes, ["Finish", "Reset", "nothing"][(plan.end % 3) as usize], plan.ep.rwnd, g.0.len(), sent.len(), g.1, g.2, s.task_end.borrow().as_ref().map(|t| &t.1));
+    o.note = desc.clone();
+    o.nontrivial = plan.pushes.iter().any(|n| *n == 0) && !sent.is_empty();
+    if plan.pushes.iter().any(|n| *n == 0) {
+        o.probe("empty-push-from-third-party-peer", 1);
+    }
+    if s.task_end.borrow().is_some() {
+        o.violate("C05:connection-ended", format!("the connection task returned although every frame was well-formed; {desc}"));
+        return o;
+    }
+    if g.0[..] != sent[..g.0.len().min(sent.len())] || g.0.len() > sent.len() {
+        o.violate("C02:prefix", format!("the bytes read are not a prefix of the bytes the peer pushed; {desc}"));
+    }
+    match (plan.end % 3, g.1) {
+        (2, Some(_)) => o.violate("C05:eof-unjustified", format!("the application read end-of-stream although the peer neither finished nor reset the stream and the connection is alive; {desc}")),
+        (0, Some(_)) if g.0.len() < sent.len() => o.violate("C05:eof-before-data", format!("end-of-stream before every byte the peer had pushed before its Finish was returned; {desc}")),
+        (0, Some(e)) if end_seq.borrow().is_some_and(|f| e < f) => o.violate("C05:eof-unjustified", format!("end-of-stream (seq {e}) before the peer sent its Finish; {desc}")),
+        (1, Some(e)) if end_seq.borrow().is_some_and(|f| e < f) => o.violate("C05:eof-unjustified", format!("end-of-stream (seq {e}) before the peer sent its Reset; {desc}")),
+        _ => {}
+    }
+    o
+}
